@@ -16,6 +16,10 @@
 (*   Quiescent  : a reconfigure with nothing changed changes no digest     *)
 (*                (build.ninja included) and no mtime of a configure-time  *)
 (*                output (the "kept" files).                               *)
+(*   HistoryIndependent : what a directory with a past holds after a full  *)
+(*                regeneration equals what `meson setup` writes into an    *)
+(*                empty directory for the same key (ConfigHistory.tla      *)
+(*                models the persistent caches that endanger this).        *)
 (*   Untouched  : (the mechanism behind Quiescent, replace_if_different)   *)
 (*                any reconfigure leaves the mtime of a kept file alone    *)
 (*                when the new content equals the old content.             *)
@@ -122,11 +126,18 @@ Last == Len(hist)
 InvFunctional == Last = 0 \/ FunctionalAt(hist, Last)
 InvQuiescent == Last = 0 \/ QuiescentAt(hist, Last)
 InvUntouched == Last = 0 \/ UntouchedAt(hist, Last)
-InvWholeHistory == Functional(hist) /\ Quiescent(hist) /\ Untouched(hist)
+\* the last command against all its witnesses, and - when the last command is itself a fresh setup - every earlier
+\* observation with a past against it
+InvHistoryIndependent == Last = 0 \/ (HistoryIndependentAt(hist, Last) /\
+                                      \A j \in 1..(Last - 1) : Last \in Witnesses(hist, j) => HistDiffers(hist, j, Last) = {})
+InvWholeHistory == Functional(hist) /\ Quiescent(hist) /\ Untouched(hist) /\ HistoryIndependent(hist)
+\* history independence is the part of Functional that has a fresh witness
+InvFunctionalImpliesHistory == FunctionalPairwise(hist) => HistoryIndependent(hist)
 \* the operational judge and the declarative pairwise statement are the same predicate
 InvFormsAgree == Functional(hist) <=> FunctionalPairwise(hist)
 \* the judge reports a violation exactly when one of the laws fails
-InvViolationsExact == (Violations(hist) = {}) <=> (Functional(hist) /\ Quiescent(hist) /\ Untouched(hist))
+InvViolationsExact == (Violations(hist) = {}) <=> (Functional(hist) /\ Quiescent(hist) /\ Untouched(hist)
+                                                   /\ HistoryIndependent(hist))
 
 \* -- shapes of directory histories (exported to the driver) ------------------
 \* a life is the sequence of (command, key) applied to one incarnation of the directory: it starts with
